@@ -300,7 +300,9 @@ func VerifC18_V1Backup() {
 	src.MkdirAll(priv, 0700)
 	src.MkdirAll(pub, 0700)
 	ks, enc := verifStoreIn(src, priv, pub, "master")
-	id := []byte("client")
+	// client ids whose last characters are also characters of the key file suffixes ("_hmac", "_storage", "_sym")
+	ids := []string{"client", "client_alpha", "team_m", "opsx_"}
+	id := []byte(ids[verif.Choose("client-id", 0, len(ids)-1)])
 	verif.Assert(ks.GenerateClientIDSymmetricKey(id) == nil, "generate-sym-1")
 	verif.Assert(ks.GenerateClientIDSymmetricKey(id) == nil, "generate-sym-2")
 	verif.Assert(ks.GenerateHmacKey(id) == nil, "generate-hmac")
